@@ -286,11 +286,11 @@ theorem tokenizeAux_nameOK (fuel : Nat) (rawTag s : Bytes) :
     output never reaches a partial operation -/
 theorem C14_no_panic (p : Policy) (input : Bytes) : p.panics input = false := by
   unfold Policy.panics
-  exact run_no_panic p (tokenize input) (tokenizeAux_nameOK _ _ _) {} stackInv_init
+  exact run_no_panic p.ensureInit (tokenize input) (tokenizeAux_nameOK _ _ _) {} stackInv_init
 
 /-- non-vacuity: the invariant is exercised (dropped element, kept same-name child, marker) -/
 example :
-    let p : Policy := { elsAndAttrs := [(b!"a", [(b!"href", [none])])] }
+    let p : Policy := { initialized := true, elsAndAttrs := [(b!"a", [(b!"href", [none])])] }
     p.sanitizeCore b!"<a>1<a href=x>2</a>3</a>4</a>" = b!"1<a href=\"x\">2</a>34</a>" := by decide
 
 end BM.Props
